@@ -729,7 +729,7 @@ def g_key(draw, shape, allow_neg=True, max_lists=1):
     """A key for __getitem__/__setitem__: dict(kind, ...)."""
     n = len(shape)
     total = ref.prod(shape)
-    kind = draw(st.sampled_from(["lin-int", "lin-slice", "lin-arr", "lin-list", "subs", "region", "region"]))
+    kind = draw(st.sampled_from(["lin-int", "lin-slice", "lin-arr", "lin-arr", "lin-list", "subs", "region", "region"]))
     lo = -total if allow_neg else 0
     if kind == "lin-int":
         return dict(kind=kind, v=draw(st.integers(lo, total - 1)))
@@ -740,6 +740,10 @@ def g_key(draw, shape, allow_neg=True, max_lists=1):
     if kind in ("lin-arr", "lin-list"):
         k = draw(st.integers(1, min(4, total)))
         v = draw(st.lists(st.integers(lo, total - 1), min_size=k, max_size=k, unique_by=lambda x: x % total))
+        if allow_neg and draw(st.booleans()):
+            # negative (from-the-end) entries are the class in which the index fix-up writes
+            j = draw(st.integers(0, k - 1))
+            v[j] = v[j] - total if v[j] >= 0 else v[j]
         return dict(kind=kind, v=v, has_negative=any(x < 0 for x in v))
     if kind == "subs":
         k = draw(st.integers(1, min(4, total)))
